@@ -5,6 +5,7 @@ import struct
 import dns.exception
 import dns.name
 import dns.tokenizer
+import dns.wire
 import dns.wirebase
 
 from lib import Err
@@ -228,6 +229,11 @@ def run_impl(case):
             start = p.current
             n = dns.name.from_wire_parser(p)
             return [labels_of(n), p.current - start, list(tr)]
+        if op == 24:
+            p = dns.wire.Parser(bytes(case[1]), case[2])
+            start = p.current
+            n = p.get_name(oname(case[3]))
+            return [labels_of(n), p.current - start]
         if op == 19:
             a, b = N(case[1]), N(case[2])
             return [a == b, a != b, a < b, a <= b, a >= b, a > b, hash(a) == hash(b)]
